@@ -199,4 +199,26 @@ def stripList : List Entry → List Entry
   | e :: es => e.strip :: stripList es
 end
 
+/-! ## Canonical form: every directory listed in name order -/
+
+def insertEntry (x : Entry) : List Entry → List Entry
+  | [] => [x]
+  | y :: ys => if y.name < x.name then y :: insertEntry x ys else x :: y :: ys
+
+def sortEntries : List Entry → List Entry
+  | [] => []
+  | x :: xs => insertEntry x (sortEntries xs)
+
+mutual
+def Entry.canon : Entry → Entry
+  | .file f => .file f
+  | .dir n es => .dir n (sortEntries (canonList es))
+def canonList : List Entry → List Entry
+  | [] => []
+  | e :: es => e.canon :: canonList es
+end
+
+/-- the tree with the listing of every directory, at every depth, sorted by name -/
+def canonical (t : Tree) : Tree := sortEntries (canonList t)
+
 end Firefly.Redirects
